@@ -5537,46 +5537,53 @@ def jobs_string_argsort(tier):
 
 
 # ------------------------------------------------------------------------------------------------ C02 / C04: an n-dimensional NumpyArray as nested regular lists
-def build_numpynd(nc, name, shape, dtype='int64'):
-    """contiguous n-dimensional NumpyArray over a symbolic buffer -> (this, flat element terms)"""
+def build_numpynd(nc, name, shape, dtype='int64', view=False):
+    """n-dimensional NumpyArray over a symbolic buffer -> (this, element terms in row-major order of the array).  view: the array is x[..., 1:]
+    of a buffer whose last dimension is one longer (not contiguous, byte offset of one item)"""
     from .cpp01 import struct_of
     code, kind, isz, fmt, sgn = NP_DTYPES[dtype]
     mod = module_of(SRC['NA'])
     fo, sz, al, fields = mod.types.struct_layout(struct_of(mod, '_ZNK7awkward10NumpyArray6lengthEv'))
-    total = 1
-    for x in shape:
-        total *= x
     nd = len(shape)
+    bshape = list(shape[:-1]) + [shape[-1] + 1] if view else list(shape)
+    total = 1
+    for x in bshape:
+        total *= x
     data = nc.m.array(name + '_data', kind, max(1, total), const=True)
     a0 = z3.Array(name + '_data', z3.BitVecSort(64), z3.BitVecSort(kind[1]))
     strides, acc = [0] * nd, isz
     for i in reversed(range(nd)):
         strides[i] = acc
-        acc *= shape[i]
+        acc *= bshape[i]
     nc.m.record(name + '_shape', {8 * i: (BV(x), 8) for i, x in enumerate(shape)}, const=True)
     nc.m.record(name + '_strides', {8 * i: (BV(x), 8) for i, x in enumerate(strides)}, const=True)
     cells = nc.content_header(name, nc.vptr_of('N7awkward10NumpyArrayE', 'NA'))
     cells.update({fo[1]: (data, 8), fo[1] + 8: (NULL, 8), fo[2]: (BV(0, 32), 4),
                   fo[4]: (Ptr(name + '_shape', 0), 8), fo[4] + 8: (Ptr(name + '_shape', 8 * nd), 8), fo[4] + 16: (Ptr(name + '_shape', 8 * nd), 8),
                   fo[5]: (Ptr(name + '_strides', 0), 8), fo[5] + 8: (Ptr(name + '_strides', 8 * nd), 8), fo[5] + 16: (Ptr(name + '_strides', 8 * nd), 8),
-                  fo[6]: (BV(0), 8), fo[7]: (BV(isz), 8),
+                  fo[6]: (BV(isz if view else 0), 8), fo[7]: (BV(isz), 8),
                   fo[8]: (Ptr(name, fo[8] + 16), 8), fo[8] + 8: (BV(1), 8), fo[8] + 16: (BV(ord(fmt), 8), 1), fo[8] + 17: (BV(0, 8), 1),
                   fo[9]: (BV(code, 32), 4)})
     this = nc.m.record(name, cells, const=True)
-    return this, [z3.Select(a0, BV(i)) for i in range(total)]
+    elems = []
+    for pos in itertools.product(*[range(x) for x in shape]):
+        off = (isz if view else 0) + sum(p_ * st_ for p_, st_ in zip(pos, strides))
+        elems.append(z3.Select(a0, BV(off // isz)))
+    return this, elems
 
 
 @guard
-def h_numpy_toregular(shape):
-    """NumpyArray::toRegularArray of a contiguous n-dimensional array: nested regular lists of exactly the same shape - every dimension keeps its
-    length, also around a dimension of size zero - over the same values in row-major order"""
+def h_numpy_toregular(shape, view=False):
+    """NumpyArray::toRegularArray of an n-dimensional array (contiguous, or the view x[..., 1:] of a wider buffer, which is copied first): nested
+    regular lists of exactly the same shape - every dimension keeps its length, also around a dimension of size zero - over the same values in
+    row-major order"""
     shape = tuple(shape)
     total = 1
     for x in shape:
         total *= x
-    nc = NodeCtx(['NA', 'RA', 'IDX', 'CNT', 'UTL', 'KD', 'IDS'], [], unwind=max(12, 2 * len(shape) + total + 8))
+    nc = NodeCtx(['NA', 'RA', 'IDX', 'CNT', 'UTL', 'KD', 'IDS'], [], unwind=max(12, 2 * len(shape) + 2 * total + 10))
     nc.m.eng.stubs.update(string_stubs(nc))
-    this, xs = build_numpynd(nc, 'arr', shape)
+    this, xs = build_numpynd(nc, 'arr', shape, view=view)
     nc.m.record('ret', {})
     out = nc.m.call('_ZNK7awkward10NumpyArray14toRegularArrayEv', [Ptr('ret', 0), this])
     obls = [('toRegularArray does not raise', out.raised)]
@@ -5601,17 +5608,23 @@ def h_numpy_toregular(shape):
 
     def replay(model, ent):
         import numpy as np
+        if view:
+            bshape = shape[:-1] + (shape[-1] + 1,)
+            btotal = total // max(shape[-1], 1) * bshape[-1] if shape[-1] else int(np.prod(bshape))
+            a = np.arange(btotal).reshape(bshape)
+            prog = 'i64nd %d %s %s getitem 2 ellipsis range 1 NONE 1 toregular' % (len(bshape), ' '.join(map(str, bshape)), ' '.join(map(str, range(btotal))))
+            return akrun_check(prog, a[..., 1:].tolist(), 'the view x[..., 1:] of a NumpyArray of shape %s as nested regular lists' % (bshape,))
         prog = 'i64nd %d %s %s toregular' % (len(shape), ' '.join(map(str, shape)), ' '.join(map(str, range(total))))
         return akrun_check(prog, np.arange(total).reshape(shape).tolist(), 'NumpyArray of shape %s as nested regular lists' % (shape,))
-    return mdischarge(nc.m, 'NumpyArray::toRegularArray shape=%s' % ','.join(map(str, shape)), obls, [], replay=replay,
-                      extra=dict(bounds='shape %s concrete (case split), int64 values symbolic, contiguous' % (shape,)))
+    return mdischarge(nc.m, 'NumpyArray::toRegularArray shape=%s%s' % (','.join(map(str, shape)), ' (view)' if view else ''), obls, [], replay=replay,
+                      extra=dict(bounds='shape %s concrete (case split), int64 values symbolic, %s' % (shape, 'a non-contiguous view with a byte offset' if view else 'contiguous')))
 
 
 def jobs_numpy_toregular(tier):
     q = [(3,), (2, 3), (2, 3, 0), (2, 0, 3), (2, 1, 2)]
     if tier != 'quick':
         q += [(0,), (0, 2), (2, 0), (0, 2, 3), (2, 2, 3, 0), (3, 2, 0, 2), (1, 1, 1), (2, 2, 2), (3, 1, 0)]
-    return [(h_numpy_toregular, (s_,), 1800) for s_ in q]
+    return [(h_numpy_toregular, (s_,), 1800) for s_ in q] + [(h_numpy_toregular, (s_, True), 1800) for s_ in ([(2, 2)] if tier == 'quick' else [(2, 2), (2, 1), (1, 2, 2), (3,)])]
 
 
 @guard
